@@ -26,10 +26,13 @@ CHECKS = {
             'epsilon, strict or sloppy typing, in verification or detection mode, the model of the verifier returns '
             'true exactly when the independently stated documented meaning (quantified over the non-null cells, never '
             'through the aggregates) holds; plus: verdict independent of the detect flag, missing field fails, null '
-            'value passes, totals are the verdict counts, a null-valued constraint is inert. The model is tied to the '
+            'value passes, totals are the verdict counts, a null-valued constraint is inert; the printed report '
+            '(Verification.__str__ in every report mode, both mark sets) is modelled down to the text: the mark printed for a '
+            'constraint determines its verdict (mark sets regenerated from base.py and proved pairwise distinct), mode all '
+            'shows every field, fields / records exactly those with failures. The model is tied to the '
             'code by running verify_df and the Lean model on generated boundary-directed (frame, constraint-set) '
             'pairs; the documented meaning is also recomputed in Python on the cells as the oracle, incl. to_frame() '
-            'and str().',
+            'and str(); the model\'s report text is compared with str(verification) in five mode / mark-set combinations per case.',
             'Trusted: Lean kernel; pandas aggregates (tied by cx.calc in the C07 check); reals are exact rationals '
             '(epsilon and bounds generated dyadic); re.match as a table. Two known findings (categorical columns).',
             'DESIGN.md 4 C02'),
